@@ -5,19 +5,19 @@ PROPS = {
         title='Optimised hashing and the transcript sponge equal their specification',
         design_ref='DESIGN.md section 4 / C13',
         bounded=[('plonky2', ['c13_', 'c04_challenger'])],
-        vspecs=['contracts/C13/poseidon_mds.vspec', 'contracts/C13/poseidon_partial.vspec', 'contracts/C13/hashing.vspec', 'contracts/C04/challenger.vspec'],
+        vspecs=['contracts/C13/poseidon_mds.vspec', 'contracts/C13/poseidon_partial.vspec', 'contracts/C13/poseidon_sbox.vspec', 'contracts/C13/hashing.vspec', 'contracts/C04/challenger.vspec'],
         level_text='Unbounded deductive proof (Verus/Z3) that (i) the frequency-domain MDS multiplication (fft4/ifft4, block1-3, mds_multiply_freq) computes the '
                    'exact integer circulant product and the Goldilocks mds_layer returns, for ALL 2^64 representations of every state element, the published '
                    'circ+diag MDS row product mod P with no i64/u128 overflow anywhere; (i-b) the fast partial-round linear layer mds_partial_layer_fast is, for every round '
                    'and ALL representations, the exact sparse product (element 0: M00*s0 + sum w_hat[i-1]*s_i; element i: s_i + s0*v[i-1]) mod P: the 160-bit accumulator '
-                   '(add_u160_u128, reduce_u160) never loses a carry and every FAST_PARTIAL_ROUND_VS entry is canonical; (ii) hash_n_to_m_no_pad / hash_n_to_hash_no_pad / compress are exactly '
+                   '(add_u160_u128, reduce_u160) never loses a carry and every FAST_PARTIAL_ROUND_VS entry is canonical; (i-c) sbox_monomial / sbox_layer return x^7 mod P and constant_layer adds round constant k of the named round, for ALL representations, and all 360 round constants are canonical (the unchecked precondition of add_canonical_u64); (ii) hash_n_to_m_no_pad / hash_n_to_hash_no_pad / compress are exactly '
                    'the overwrite-mode sponge over an uninterpreted permutation (chunk boundaries at multiples of RATE, overwrite not add, squeeze from the rate '
                    'part); (iii) every Challenger method implements the duplex sponge state machine and absorbing a ++ b in one or two calls reaches the same state.',
         level_note='Trusted: Verus+Z3; the permutation is uninterpreted in (ii)/(iii); gl_core contracts (C14) for from_noncanonical_u96 and +. NOT proved: the '
                    'identity between the fast partial rounds (FAST_PARTIAL_* matrices) and the textbook rounds (a computer-algebra identity on 12x12 matrices, '
-                   'assumption A-C13-1), round constants, s-box, full/partial round drivers (poseidon.rs) -- listed as remainder. Keccak delegates to an external crate; the bounded harness checks that the Keccak permutation, hash and challenger see field elements, not '
+                   'assumption A-C13-1), the full/partial round drivers and mds_partial_layer_init (poseidon.rs) -- listed as remainder. Keccak delegates to an external crate; the bounded harness checks that the Keccak permutation, hash and challenger see field elements, not '
                    'their u64 representations (x vs x + p).',
-        remainder=['poseidon.rs: constant_layer, sbox_layer, mds_partial_layer_init, partial_first_constant_layer, partial_rounds, full_rounds, poseidon drivers (bounded harness only: poseidon == poseidon_naive; linear layers vs a u128 oracle on magnitude classes and states steered to the carry boundaries of the 160-bit accumulator, incl. sums K*2^128 + delta with delta < 100)',
+        remainder=['poseidon.rs: mds_partial_layer_init, partial_first_constant_layer, partial_rounds, full_rounds, poseidon drivers (bounded harness only: poseidon == poseidon_naive; linear layers vs a u128 oracle on magnitude classes and states steered to the carry boundaries of the 160-bit accumulator, incl. sums K*2^128 + delta with delta < 100)',
                    'A-C13-1: FAST_PARTIAL_* constants are the sparse factorisation of the MDS matrix', 'Keccak (external crate)', 'AVX2/NEON Poseidon (not compiled here)'],
     ),
     'C14': dict(
@@ -28,7 +28,7 @@ PROPS = {
         level_text='Unbounded deductive proof (Verus/Z3) that each base-field kernel extracted from field/src/goldilocks_field.rs returns the '
                    'mathematically correct residue for every 64/96/128/160-bit representation, with every unchecked `assume`, overflow, '
                    'underflow and debug assertion turned into a discharged obligation; the extension-field product kernels (ext2/4/5) equal the schoolbook product modulo the '
-                   'binomial; squaring, exp_power_of_2 and try_inverse: None exactly for the representations of zero, otherwise exactly x^(P-2) mod P through the fixed '
+                   'binomial; squaring, exp_power_of_2, exp_u64 (square-and-multiply == x^e mod P for every 64-bit e) and try_inverse: None exactly for the representations of zero, otherwise exactly x^(P-2) mod P through the fixed '
                    '72-multiplication chain (that this is the inverse is Fermat, assumed). Proof is the right level: the failing operand '
                    'patterns have probability ~2^-32 under sampling.',
         level_note='Trusted: Verus+Z3; the 2-instruction x86 asm model (portable twin verified without it); std overflowing_add/sub specs; '
@@ -36,7 +36,7 @@ PROPS = {
                    'and interleave, every pair of boundary representations in every lane, vs a u128 oracle); skipped with a note on a CPU without the features. Not covered: secp256k1, sqrt.',
         remainder=[
             'AVX2/AVX-512 packed fields (field/src/arch/x86_64/*): intrinsics outside both verifiers; bounded harness only (build variants field@avx2, field@avx512)',
-            'secp256k1 BigUint fields; sqrt / kth_root (BigUint)',
+            'secp256k1 BigUint fields; sqrt / kth_root (BigUint)', 'exp_biguint, batch_multiplicative_inverse, Frobenius / extension inversion (bounded harness only)',
         ],
     ),
     'C07': dict(
